@@ -222,7 +222,6 @@ func (h *hist) bulkBatch(keys []string, del bool, tag string) {
 // the buffer and the backing store, next to runs that are only in one of them).
 func (h *hist) bulkLoad(keys []string) {
 	perm := h.rng.Perm(len(keys))
-	flushed := false
 	for off := 0; off < len(perm) && !h.dead; {
 		n := 100 + h.rng.Intn(800)
 		if off+n > len(perm) {
@@ -236,13 +235,11 @@ func (h *hist) bulkLoad(keys []string) {
 		off += n
 		if h.sp.buffered && !h.dead && (h.rng.Intn(4) == 0 || off >= len(perm)) {
 			h.doFlush()
-			flushed = true
 		}
 	}
 	if h.dead {
 		return
 	}
-	_ = flushed
 	// runs of neighbours (in byte order) are overwritten, deleted or left alone
 	sk := append([]string(nil), keys...)
 	sort.Strings(sk)
